@@ -1279,6 +1279,20 @@ class _Ctx:
 
     def call_value(self, f, args, kwargs):
         ev = self.ev
+        if kwargs and is_t(f, "attr") and f[1] == P("self") and self.cls is not None and "**" not in kwargs and not any(is_t(x, "star") for x in args):
+            # self.m(a, p=b): keywords naming the next parameters of the class's own method become positional
+            hit_ = ev.prog.find_method(self.cls, f[2])
+            if hit_ is not None:
+                fn_ = hit_[1]
+                sig = [a_.arg for a_ in fn_.args.args]
+                if not _is_static(fn_) and sig:
+                    sig = sig[1:]
+                args, kwargs = list(args), dict(kwargs)
+                for pn_ in sig[len(args):]:
+                    if pn_ in kwargs:
+                        args.append(kwargs.pop(pn_))
+                    else:
+                        break
         if kwargs and is_t(f, "attr") and f[1] != P("self") and "**" not in kwargs and f[2] not in self._GFI_SIG:
             fl = next((h for h in ev.fluent()[1].values() if h[0] == f[2]), None)
             if fl is not None:
